@@ -35,7 +35,7 @@ ASSUMPTIONS = [
     "the constant 4 per source is deliberately generous (current item, previous item, tuple under construction, one in flight)",
     "cycle, sorted, the collection builders and lagging tee children are exempt as documented",
 ]
-PROBES = ("tee_of_tee_child", "awaitable_items", "tee_child_failed_and_abandoned", "lazy_sequence_source", "len>=800", "tee_lagging_child_closed", "aggregation", "multi_source", "window_tool")
+PROBES = ("tee_step_created_and_dropped", "tee_of_tee_child", "awaitable_items", "tee_child_failed_and_abandoned", "lazy_sequence_source", "len>=800", "tee_lagging_child_closed", "aggregation", "multi_source", "window_tool")
 
 TOOLS = ("zip", "map", "filter", "filterfalse", "enumerate", "accumulate", "batched", "chain", "compress",
          "dropwhile", "takewhile", "islice", "pairwise", "starmap", "zip_longest", "merge", "tee", "groupby", "chain_from_iterable",
@@ -193,6 +193,10 @@ def gen(ch):
         total = sc["children"] + max(0, sc["outer"] - 1)
         sc["close_at"] = [ch.draw(sc["length"]) if ch.chance(1, 3) else None for _ in range(total)]
         sc["close_at"][0] = None
+        if ch.chance(1, 4):
+            # one child is closed before it was ever advanced - after its first step was created and thrown away
+            sc["close_at"][total - 1] = 0
+        sc["abandon_step"] = ch.chance(1, 2)
         sc["pattern"] = [ch.draw(total) for _ in range(16)]
     return sc
 
@@ -255,7 +259,12 @@ def execute(st, ctx):
 
         wrap = lambda item: Chunk([item.key])  # noqa: E731
     for s in range(nsrc):
-        stream, refs = make_stream(sim, cnt, sc["lens"][s], sc["flavour"], sc["every"], keyfn, wrap, check_on_pull=is_agg,
+        kf = keyfn
+        if tool == "merge":
+            # interleaved (block 1) up to fully partitioned inputs (one source keeps winning for a whole block)
+            block = (1, 1, 10, 100, 10 ** 6)[sc["n"] % 5]
+            kf = lambda i, s=s, block=block: (i // block) * block * nsrc + s * block + i % block  # noqa: E731
+        stream, refs = make_stream(sim, cnt, sc["lens"][s], sc["flavour"], sc["every"], kf, wrap, check_on_pull=is_agg,
                                    fault_at=transient)
         streams.append(stream)
         all_refs.append(refs)
@@ -312,6 +321,12 @@ def execute(st, ctx):
                 if counts[c] - lo >= sc["lead"] and counts[c] != lo:
                     c = next(i for i in range(len(live)) if live[i] and counts[i] == lo)
                 if sc["close_at"][c] is not None and counts[c] >= sc["close_at"][c]:
+                    if sc.get("abandon_step"):
+                        # a step that was asked for and dropped before it ever ran
+                        step = children[c].__anext__()
+                        step.close()
+                        del step
+                        out.probes["tee_step_created_and_dropped"] = 1
                     await children[c].aclose()
                     live[c] = False
                     out.probes["tee_lagging_child_closed"] = 1
